@@ -58,6 +58,16 @@ CHECKS = {
          "Every configuration of the finite product (operation, rk/up/uv, verification and presence capability, 7 validation outcomes, pin-auth, store kind, 4 store contents; plus the client-level userVerification dimension) is executed on the real code and compared with a 30-line reference of the consent rule, the call log order and the store snapshot. The space is finite and is enumerated completely, which is the strongest statement available for a configuration property.",
          "Harness implementations of CredentialStore/UserValidationMethod close the system; only Ok/Err class, flag bits, call order, store snapshots and equality of status bytes across store contents are compared.",
          "DESIGN.md §2 C04"),
+ "C12": ("exploration",
+         "bounded-exhaustive enumeration: full product of constructor/setter inputs, every truncation and every single-byte corruption (16 boundary values, all 256 for a representative subset) of each encoding, independent byte-level parser as oracle",
+         "Values over all combinations of RP id, counter, flag subset, attested data (id lengths 0..65535) and extension outputs are encoded by the real code and parsed by a byte-level parser written from the WebAuthn layout; decoding must return an equal value; every strict prefix must be rejected and every single-byte replacement must return without panic, with reserved flag bits and missing flagged sections rejected. About 10^8 decodes in the quick tier; thorough adds all two-byte corruptions of the shortest encodings.",
+         "AT/ED are structural so only subsets of {UP,UV,BE,BS} are assigned; corruption is exhaustive to one byte (two for the shortest encodings), not beyond.",
+         "DESIGN.md §2 C12"),
+ "C13": ("exploration",
+         "bounded-exhaustive enumeration of presence patterns and key-level mutations of every CTAP2 message on the real (de)serialisers, inspected through a generic CBOR value; all 256 status bytes",
+         "Every presence pattern of optional members of the six message types is serialised and inspected as a generic CBOR value against the specification's key numbering typed into the harness, then round-tripped; every unassigned integer key 0..255 and unknown text keys are injected (all positions), each required member removed, each member duplicated, options omitted/emptied; every status byte is converted both ways and injected as a store failure under Client::authenticate.",
+         "Debug-string equality of messages; keys above 255 and negative keys are outside the property.",
+         "DESIGN.md §2 C13"),
 }
 
 NOT_BUILT = "check not built yet in this revision of the harness (planned per DESIGN.md §2); no claim is made"
